@@ -415,9 +415,15 @@ def check(pid, tier, seed):
                        str(seed), cases, stats]
             if eng.get("arg"):
                 cmd += ["-arg", eng["arg"]]
-            procs.append((subprocess.Popen(cmd, cwd=ROOT, env=penv, stdout=subprocess.PIPE, stderr=subprocess.STDOUT, text=True), cases, stats))
-        for pr, cases, stats in procs:
+            procs.append((subprocess.Popen(cmd, cwd=ROOT, env=penv, stdout=subprocess.PIPE, stderr=subprocess.STDOUT, text=True), cases, stats, cmd))
+        for pr, cases, stats, cmd in procs:
             o, _ = pr.communicate()
+            if pr.returncode not in (0, 66):
+                # a generator process that died (the Go runtime aborts when the machine is out of memory or
+                # processes) is run once more on its own; only a crash that repeats is reported
+                pr = subprocess.run(cmd, cwd=ROOT, env=penv, stdout=subprocess.PIPE, stderr=subprocess.STDOUT, text=True)
+                o = (o or "")[-400:] + "\n--- second attempt ---\n" + (pr.stdout or "")
+                dist["engine-process-retried"] = dist.get("engine-process-retried", 0) + 1
             if pr.returncode == 66 and eng.get("race") and os.path.exists(cases) and os.path.exists(stats):
                 pass   # the race detector's exit code: races were reported; the lines carry races=N and are judged below
             elif pr.returncode != 0:
